@@ -469,7 +469,29 @@ class _Fold(ast.NodeTransformer):
                 return ast.Attribute(value=node.args[0], attr=nm.value, ctx=ast.Load())
         return node
 
+    @staticmethod
+    def _block_elems(it: ast.expr) -> Optional[List[ast.expr]]:
+        """A measure's `.blocks` (or SumSubtotals.blocks(...)) is a 2 x 2 nested list: iterating it yields its two rows,
+        iterating a row its two blocks."""
+        def is_blocks(b):
+            if isinstance(b, ast.Attribute) and b.attr in ("blocks", "_blocks"):
+                return True
+            return isinstance(b, ast.Call) and isinstance(b.func, ast.Attribute) and b.func.attr == "blocks"
+
+        if is_blocks(it):
+            return [ast.Subscript(value=copy.deepcopy(it), slice=ast.Constant(value=k), ctx=ast.Load()) for k in (0, 1)]
+        if isinstance(it, ast.Subscript) and isinstance(it.slice, ast.Constant) and it.slice.value in (0, 1) and is_blocks(it.value):
+            return [ast.Subscript(value=copy.deepcopy(it), slice=ast.Constant(value=k), ctx=ast.Load()) for k in (0, 1)]
+        return None
+
     def visit_ListComp(self, node: ast.ListComp):
+        # outer generators first, so that an inner `for block in block_row` sees the substituted row
+        if len(node.generators) == 1 and isinstance(node.generators[0].target, ast.Name) and not node.generators[0].ifs:
+            g0 = node.generators[0]
+            it0 = self.visit(copy.deepcopy(g0.iter))
+            elems = self._block_elems(it0)
+            if elems is not None:
+                return ast.List(elts=[self.visit(_SubstName(g0.target.id, v).visit(copy.deepcopy(node.elt))) for v in elems], ctx=ast.Load())
         self.generic_visit(node)
         if len(node.generators) == 1:
             g = node.generators[0]
